@@ -4,6 +4,38 @@ import rt_common, probe, gen_impl
 PID = "C02"
 
 
+def interact_order_probe(rep):
+    """real runtime, std bounded channel filled to its capacity in front of an `interact` method that hands a channel end back (harness/c14, mode
+    std_order): the request and the caller's next call are applied in the order the caller issued them"""
+    import C14
+    rc, out, binp = C14.probe_build()
+    if rc != 0:
+        rep.notes.append("interact probe (harness/c14) does not build against the current tree: order probe skipped (C14 reports the build)")
+        return
+    want = ["hold", "push:1", "push:2"]
+
+    def bad(d):
+        if "error" in d or d.get("errors"):
+            return "harness"
+        return None if (d.get("snapshot") == want and d.get("log") == want + ["snap", "push:3"]) else "order"
+    d = C14.probe_run(binp, "std_order", 0, 0)
+    rep.evaluations += 1
+    rep.traces += 1
+    b = bad(d)
+    if b:
+        d = C14.probe_run(binp, "std_order", 0, 0)       # only a failure that shows twice counts
+        b = bad(d)
+    rep.nontrivial.add(("interact-order", "std", 2))
+    if b == "harness":
+        rep.notes.append("interact order probe inconclusive: %s" % str(d)[:300])
+        return
+    if not rep.oblige(b is None):
+        rep.violation("probe_interact_order", {
+            "what": "calls issued one after another through one handle were not applied in that order: the snapshot taken by the interact request `snap` is %s and the actor's log %s; "
+                    "expected snapshot %s and log %s (std, channel = 2, queue full when `snap` was issued, `push(3)` issued right after it)" % (d.get("snapshot"), d.get("log"), want, want + ["snap", "push:3"]),
+            "how_to_replay": "%s std_order 0 0" % binp, "observation": d}, found=True)
+
+
 def run(rep):
     rng = random.Random(rep.seed)
     rep.extra["rule"] = "instances = real expansions for lib x channel x debut x impl blocks with all call kinds; non-trivial = distinct (lib, channel, debut, model) classes"
@@ -14,6 +46,7 @@ def run(rep):
         dfs=("bad_loss", "false"),
         search="c02_search", search_what="two clients, every messaging method, fair schedule; anomalies: 1 a call returned while alive but was never handed to the channel, 2 a client's calls executed out of issue order")
     rt_common.interact_struct_part(rep, PID, random.Random(rep.seed + 13))
+    interact_order_probe(rep)
     runs = []
     for lib in gen_impl.LIBS:
         for ch in ((0, 1) if rep.tier == "quick" else (0, 1, 2, 3)):
